@@ -70,6 +70,13 @@ def mcallRecv : Spec.Expr → Option Spec.Name
   | .var .glob v => some v
   | _ => none
 
+/-- `CallFunction.receiver` of a method call: the node `46 n` pushed for a global receiver (a GlobalVariable, or a LocalVariable
+    when the name is not yet known as a global), None for a local / parameter receiver (read by the JavaScript generator only) -/
+def RecvNode (o : Spec.Expr) (nm : Spec.Name) (rc : Node) : Prop :=
+  match o with
+  | .var .glob _ => ∃ pr, rc = .leaf .globalVar (.s nm) pr ∨ rc = .leaf .localVar (.s nm) pr
+  | _ => rc = .none
+
 mutual
 /-- `Emb e n`: `n` is the node the model builds for `e` (any positions) -/
 def Emb : Spec.Expr → Node → Prop
@@ -85,7 +92,7 @@ def Emb : Spec.Expr → Node → Prop
   | .field a, n => ∃ p x, n = .unary (S "field") p x ∧ Emb a x
   | .call f as, n => ∃ p p' wr ops, n = .callFn (.s f) p (.loadList (S "<load_list>") p' ops.reverse) true false wr .none ∧ EmbL as ops
   | .mcall o m as, n => ∃ p p' ps rc ops nm, mcallRecv o = some nm ∧
-      n = .callFn (.s nm) p (.loadList (S "<load_list>") p' (ops.reverse ++ [.sym (.s m) ps false])) true false false rc ∧ EmbL as ops
+      n = .callFn (.s nm) p (.loadList (S "<load_list>") p' (ops.reverse ++ [.sym (.s m) ps false])) true false false rc ∧ EmbL as ops ∧ RecvNode o nm rc
   | .list as, n => ∃ p p' ops, n = .toList p (.loadList (S "<load_list>") p' ops.reverse) ∧ EmbL as ops
   | .plist as, n => ∃ p p' ops, n = .toDict p (.loadList (S "<load_list>") p' ops.reverse) ∧ EmbL as ops
   | .key v, n => ∃ p, n = .keyAcc p v
@@ -124,7 +131,7 @@ def EmbH (hs : List Spec.Name) : Spec.Expr → Node → Prop
   | .field a, n => ∃ p x, n = .unary (S "field") p x ∧ EmbH hs a x
   | .call f as, n => ∃ p p' ops, n = .callFn (.s f) p (.loadList (S "<load_list>") p' ops.reverse) true false (hs.contains f) .none ∧ EmbLH hs as ops
   | .mcall o m as, n => ∃ p p' ps rc ops nm, mcallRecv o = some nm ∧
-      n = .callFn (.s nm) p (.loadList (S "<load_list>") p' (ops.reverse ++ [.sym (.s m) ps false])) true false false rc ∧ EmbLH hs as ops
+      n = .callFn (.s nm) p (.loadList (S "<load_list>") p' (ops.reverse ++ [.sym (.s m) ps false])) true false false rc ∧ EmbLH hs as ops ∧ RecvNode o nm rc
   | .list as, n => ∃ p p' ops, n = .toList p (.loadList (S "<load_list>") p' ops.reverse) ∧ EmbLH hs as ops
   | .plist as, n => ∃ p p' ops, n = .toDict p (.loadList (S "<load_list>") p' ops.reverse) ∧ EmbLH hs as ops
   | .key v, n => ∃ p, n = .keyAcc p v
@@ -335,7 +342,7 @@ def EmbS : Spec.Stmt → Node → Prop
   | .delete t, n => ∃ p q l, n = .stmt p (.unary (S "delete") q l) ∧ EmbTg t l
   | .hilite t, n => ∃ p q l, n = .stmt p (.unary (S "hilite") q l) ∧ EmbTg t l
   | .mcall o m as, n => ∃ p q q' ps rc ops nm, mcallRecv o = some nm ∧
-      n = .stmt p (.callFn (.s nm) q (.loadList (S "load_list") q' (ops.reverse ++ [.sym (.s m) ps false])) true false false rc) ∧ EmbL as ops
+      n = .stmt p (.callFn (.s nm) q (.loadList (S "load_list") q' (ops.reverse ++ [.sym (.s m) ps false])) true false false rc) ∧ EmbL as ops ∧ RecvNode o nm rc
   | _, _ => False
 
 def EmbSs : List Spec.Stmt → List Node → Prop
@@ -351,7 +358,7 @@ def EmbSH (hs : List Spec.Name) : Spec.Stmt → Node → Prop
   | .delete t, n => ∃ p q l, n = .stmt p (.unary (S "delete") q l) ∧ EmbTg t l
   | .hilite t, n => ∃ p q l, n = .stmt p (.unary (S "hilite") q l) ∧ EmbTg t l
   | .mcall o m as, n => ∃ p q q' ps rc ops nm, mcallRecv o = some nm ∧
-      n = .stmt p (.callFn (.s nm) q (.loadList (S "load_list") q' (ops.reverse ++ [.sym (.s m) ps false])) true false false rc) ∧ EmbLH hs as ops
+      n = .stmt p (.callFn (.s nm) q (.loadList (S "load_list") q' (ops.reverse ++ [.sym (.s m) ps false])) true false false rc) ∧ EmbLH hs as ops ∧ RecvNode o nm rc
   | _, _ => False
 
 def EmbSsH (hs : List Spec.Name) : List Spec.Stmt → List Node → Prop
@@ -578,6 +585,7 @@ def FragX : Spec.Stmt → Bool
   | .ifThen c t e => FragE c && FragXs t && FragXs e
   | .repeatWhile c b => FragE c && FragXs b
   | .repeatWith (.var .loc v) a b _ body => idOk v && FragE a && FragE b && FragXs body
+  | .repeatIn (.var .loc v) l body => idOk v && FragE l && FragXs body
   | _ => false
 def FragXs : List Spec.Stmt → Bool
   | [] => true
@@ -686,6 +694,8 @@ def mS : Nat → Spec.Stmt → Str
   | ind, .repeatWith v a b down body =>
     Lscr.indentOf ind ++ S "repeat with " ++ mE v ++ S " = " ++ mE a ++ S " " ++ (if down then S "down to" else S "to") ++ S " " ++ mE b
       ++ S "\n" ++ mSs (ind + 1) body ++ Lscr.indentOf ind ++ S "end repeat" ++ S "\n"
+  | ind, .repeatIn v l body =>
+    Lscr.indentOf ind ++ S "repeat with " ++ mE v ++ S " in " ++ mE l ++ S "\n" ++ mSs (ind + 1) body ++ Lscr.indentOf ind ++ S "end repeat" ++ S "\n"
   | _, _ => []
 def mSs : Nat → List Spec.Stmt → Str
   | _, [] => []
